@@ -314,6 +314,7 @@ pub const LITERALS: &[&str] = &[
     "Foo", "foo", "Foo Bar", "  foo  bar ", "\u{3a3}\u{3c2}", "\u{2163}", "\u{fb01}", "\u{a8}", "\u{fdfa}", "x\u{b4}",
     "l\u{b7}l", "a\u{200d}", "\u{94d}\u{200d}", "\u{627}\u{660}", "\u{660}\u{6f0}", "\u{5d0}1", "1\u{5d0}", "\u{5d0}a",
     "\u{30fb}", "\u{30a2}\u{30fb}", "\u{375}\u{3b1}", "\u{5d0}\u{5f3}", "\u{1f412}", "a\u{0}", "\u{378}", "\u{e000}",
+    "\u{391}\u{3a3}", "\u{39f}\u{394}\u{3a5}\u{3a3}\u{3a3}\u{395}\u{3a5}\u{3a3}", "a\u{3a3}", "A\u{3a3}.\u{391}\u{3a3}", "\u{3a3}\u{391}",
     "\u{130}", "\u{1e9e}", "\u{3000}a\u{3000}", "\u{a0}", " ", "  ", "a ", " a", "\u{2003}\u{2003}", "\u{1d400}",
     "\u{2460}", "\u{2122}", "\u{ad}", "\u{fffd}", "\u{10ffff}", "I\u{307}", "\u{1f88}", "\u{1f80}",
 ];
@@ -325,7 +326,9 @@ const TOKENS: &[&[&str]] = &[
     /* 3 ascii space  */ &[" ", "  ", "   "],
     /* 4 non-ascii sp */ &["\u{a0}", "\u{1680}", "\u{2000}", "\u{2003}", "\u{202f}", "\u{205f}", "\u{3000}"],
     /* 5 wide/narrow  */ &["\u{ff21}", "\u{ff41}", "\u{ff10}", "\u{ff76}", "\u{ffe6}", "\u{ff01}", "\u{ffa1}", "\u{3000}"],
-    /* 6 cased non-ascii */ &["\u{c9}", "\u{e9}", "\u{3a3}", "\u{3c3}", "\u{3c2}", "\u{130}", "\u{df}", "\u{1e9e}", "\u{1c5}", "\u{1c4}", "\u{1f88}", "\u{10400}", "\u{24b6}", "\u{2160}"],
+    /* 6 cased non-ascii */ &["\u{c9}", "\u{e9}", "\u{3a3}", "\u{3c3}", "\u{3c2}", "\u{130}", "\u{df}", "\u{1e9e}", "\u{1c5}", "\u{1c4}", "\u{1f88}", "\u{10400}", "\u{24b6}", "\u{2160}",
+        // context-sensitive lowercasing (Final_Sigma) and multi-character lowercase expansions
+        "\u{391}\u{3a3}", "a\u{3a3}", "\u{3a3}\u{3a3}", "\u{3a3}\u{391}", "I\u{307}\u{3a3}"],
     /* 7 decomposed   */ &["e\u{301}", "A\u{30a}", "\u{212b}", "\u{2126}", "\u{1e0b}\u{323}", "\u{3a9}", "o\u{308}\u{304}", "\u{1100}\u{1161}", "\u{ac00}"],
     /* 8 rtl          */ &["\u{5d0}", "\u{5d1}", "\u{628}", "\u{627}", "\u{5b0}", "\u{64b}", "\u{6cc}"],
     /* 9 digits other */ &["\u{660}", "\u{669}", "\u{6f0}", "\u{6f9}", "\u{966}", "1"],
@@ -487,6 +490,44 @@ pub fn gen_workload(rng: &mut Rng, cfg: &GenCfg) -> Workload {
             (parent, after)
         };
         threads.push(ThreadPlan { parent, after, calls });
+    }
+    Workload { pool, threads }
+}
+
+/// "Phased" workload: every thread has the same number of calls and, in phase k, all threads
+/// call (one of) the same one or two profiles with inputs built from the same token class. A
+/// structure that the library builds lazily for one feature (a per-script table, a per-profile
+/// cell, a cache for one kind of character) is then first used by all threads at the same
+/// moment, which is where a hand-rolled lazy initialisation shows a half-built state.
+pub fn gen_phased_workload(rng: &mut Rng, nthreads: usize, phases: usize) -> Workload {
+    let mut pool: Vec<String> = vec![];
+    let mut threads: Vec<ThreadPlan> = (0..nthreads).map(|_| ThreadPlan { parent: 0, after: 0, calls: vec![] }).collect();
+    for _ in 0..phases {
+        let cls = rng.usize_below(TOKENS.len());
+        let profs: Vec<u8> = if rng.chance(1, 2) { vec![rng.below(4) as u8] } else { vec![rng.below(4) as u8, rng.below(4) as u8] };
+        // 1-3 strings of this class (short: Miri interprets every table lookup)
+        let base = pool.len();
+        let nstr = 1 + rng.usize_below(3);
+        for _ in 0..nstr {
+            let toks: &[&str] = TOKENS[cls];
+            let mut st = String::new();
+            if rng.chance(1, 3) {
+                st.push_str(TOKENS[0][rng.usize_below(TOKENS[0].len())]);
+            }
+            for _ in 0..1 + rng.usize_below(3) {
+                st.push_str(toks[rng.usize_below(toks.len())]);
+            }
+            pool.push(st);
+        }
+        for t in threads.iter_mut() {
+            let kind = rng.below(3) as u8;
+            let profile = profs[rng.usize_below(profs.len())];
+            let api = if rng.chance(1, 2) { 0 } else { rng.below(API_FORMS.len() as u64) as u8 };
+            let (fa, fb) = if kind == 2 { (rng.below(4) as u8, rng.below(4) as u8) } else { (rng.below(5) as u8, 0) };
+            let a = base + rng.usize_below(nstr);
+            let b = if kind == 2 { base + rng.usize_below(nstr) } else { 0 };
+            t.calls.push(Call { profile, kind, api, fa, fb, a, b });
+        }
     }
     Workload { pool, threads }
 }
